@@ -145,6 +145,37 @@ def run(m, rep, tier):
                     break
         check_position(m, f, '$%d' % posk, kind, t3)
 
+    # ---- T5 --------------------------------------------------------------------------
+    t5 = rep.rule('T5', 'byte counts handed to memcpy / memmove / memset are character counts scaled by the character size', floor=4)
+    for name in sorted(ents):
+        f = m.ifn(name)
+        if f is None:
+            continue
+        csz = 4 if name.startswith('cstl_wstring_') else 1
+        for c in f.all_insts():
+            cal = c.callee or ''
+            if c.op != 'call' or not cal.startswith(('llvm.memcpy', 'llvm.memmove', 'llvm.memset')):
+                continue
+            if not c.srcfn.startswith(PREFIXES):
+                continue            # copies inside the vector / swap helpers are element-size driven
+            ln = c.o[2]
+            li = f.get(ln) if isinstance(ln, str) else None
+            site = '%s:%s@%s' % (name, cal.split('.')[1], c.srcfn)
+            ok = False
+            if const_int(ln) is not None:
+                ok = const_int(ln) % csz == 0
+            elif csz == 1:
+                ok = True
+            elif li is not None and li.op == 'mul' and csz in (const_int(li.o[0]), const_int(li.o[1])):
+                ok = True
+            elif li is not None and li.op == 'shl' and const_int(li.o[1]) == 2:
+                ok = True
+            if ok:
+                t5.ok(site, 'length %s' % ('x %d' % csz if csz > 1 else 'in bytes = characters'), c.loc())
+            else:
+                t5.violation(site, 'the wide-character instantiation passes a character count as a byte count to %s at %s (not scaled by sizeof(wchar_t)): '
+                             'only part of the characters is copied / cleared' % (cal.split('.')[1], c.loc()), c.loc(), {})
+
     # ---- T4 --------------------------------------------------------------------------
     t4 = rep.rule('T4', 'str() never returns NULL', floor=2)
     for pfx in PREFIXES:
